@@ -1,5 +1,6 @@
 import GbVerif.Proofs.PpuInterleave
 import GbVerif.Model.Ppu
+import GbVerif.Spec.Frame
 /-!
 C15 stage (i): consequences of the interleave enumeration, the flip multiply trick (all 256
 bytes) and tile addressing (all 256 indices × all 256 LCDC values), kernel-checked.
